@@ -83,6 +83,135 @@ end AdaVerif.Lemmas.AggL
 namespace AdaVerif.Lemmas.AggL
 open AdaVerif AdaVerif.Model AdaVerif.Model.Agg
 
+theorem dashdot_false_of_host (u : Spec.Url) (h : u.cannotHaveUsernamePasswordPort = false) : (ofUrl u).dashdot = false := by
+  cases hh : u.host <;> simp_all [Spec.Url.cannotHaveUsernamePasswordPort, ofUrl]
+
+theorem setPort_end_to_end (L : Nat) (u : Spec.Url) (v : Bytes) (ok : CredOk u) :
+    setPortM L (u.scheme == Spec.bFile) (Spec.defaultPort u.scheme) (layout (ofUrl u)) v =
+      if u.cannotHaveUsernamePasswordPort then (layout (ofUrl u), false)
+      else if v.isEmpty then (layout (ofUrl (Spec.setPort u v)), true)
+      else match Spec.stripTN v with
+        | [] => (layout (ofUrl u), true)
+        | c :: _ =>
+          if !isAsciiDigit c then (layout (ofUrl u), false)
+          else if Spec.parseRadix 10 ((Spec.stripTN v).takeWhile isAsciiDigit) > 65535 then (layout (ofUrl u), false)
+          else if (layout (ofUrl (Spec.setPort u v))).buf.length ≤ L then (layout (ofUrl (Spec.setPort u v)), true)
+          else (layout (ofUrl u), false) := by
+  unfold setPortM
+  rw [cannot_iff u ok]
+  cases hc : u.cannotHaveUsernamePasswordPort
+  · have hdd := dashdot_false_of_host u hc
+    simp only [Bool.false_eq_true, ↓reduceIte]
+    by_cases hv : v.isEmpty = true
+    · have hv' : v = [] := by cases v <;> simp_all
+      subst hv'
+      simp only [List.isEmpty_nil, ↓reduceIte, clearPort_layout _ hdd]
+      simp [Spec.setPort, hc, ofUrl, Spec.Url.pathSerialized]
+    · simp only [hv, Bool.false_eq_true, ↓reduceIte]
+      cases ht : Spec.stripTN v with
+      | nil => simp
+      | cons c t =>
+        simp only
+        by_cases hd : isAsciiDigit c = true
+        · simp only [hd, Bool.not_true, Bool.false_eq_true, ↓reduceIte]
+          by_cases hbig : Spec.parseRadix 10 ((c :: t).takeWhile isAsciiDigit) > 65535
+          · simp [hbig]
+          · simp only [hbig, ↓reduceIte]
+            -- what the Standard's port state computes
+            have hne : ((c :: t).takeWhile isAsciiDigit).isEmpty = false := by simp [List.takeWhile, hd]
+            have hspec : Spec.setPort u v =
+                (if Spec.defaultPort u.scheme == some (Spec.parseRadix 10 ((c :: t).takeWhile isAsciiDigit))
+                 then { u with port := none } else { u with port := some (Spec.parseRadix 10 ((c :: t).takeWhile isAsciiDigit)) }) := by
+              simp only [Spec.setPort, hc, Bool.false_eq_true, ↓reduceIte, hv, ht, Spec.portOverride, hne, hbig]
+            rw [hspec]
+            split
+            · rw [clearPort_layout _ hdd]
+              simp [ofUrl, Spec.Url.pathSerialized]
+            · rw [updateBasePort_layout _ _ _ hdd]
+              simp [ofUrl, Spec.Url.pathSerialized]
+        · simp [hd]
+  · simp
+
+theorem clearPort_none (l : L) (hp : l.port = none) : clearPort (layout l) = layout l := by
+  simp [clearPort, layout, hp]
+
+theorem hasCredentials_layout (u : Spec.Url) (ok : CredOk u) : hasCredentials (layout (ofUrl u)) = u.includesCredentials := by
+  unfold hasCredentials Spec.Url.includesCredentials
+  cases hh : u.host with
+  | none =>
+    obtain ⟨hu, hp, _⟩ := ok.hostless hh
+    simp [hasNonEmptyUsername, hasNonEmptyPassword, layout, ofUrl, hh, hu, hp, authS, passS]
+  | some h =>
+    have e1 : hasNonEmptyUsername (layout (ofUrl u)) = !u.username.isEmpty := by
+      rw [hasNonEmptyUsername_layout (ofUrl u) (by simp [ofUrl, hh])]; simp [ofUrl]
+    have e2 : hasNonEmptyPassword (layout (ofUrl u)) = !u.password.isEmpty := by
+      rw [hasNonEmptyPassword_layout]; simp [ofUrl]
+    rw [e1, e2]
+
+/-- the protocol setter, state-override part, end to end -/
+theorem setProtocolCore_end_to_end (L : Nat) (u : Spec.Url) (s : Bytes) (ok : CredOk u) (hsch : u.scheme ≠ [])
+    (hfile : u.scheme = Spec.bFile → u.host.isSome = true) :
+    (setProtocolCoreM L u.isSpecial (u.scheme == Spec.bFile) (layout (ofUrl u)) s).1 =
+      if (layout (ofUrl (Spec.protocolCore u s))).buf.length ≤ L then layout (ofUrl (Spec.protocolCore u s)) else layout (ofUrl u) := by
+  unfold setProtocolCoreM Spec.protocolCore
+  simp only [Spec.Url.isSpecial]
+  by_cases h1 : (Spec.isSpecialScheme u.scheme != Spec.isSpecialScheme s) = true
+  · simp only [h1, ↓reduceIte]; split <;> rfl
+  · simp only [h1, Bool.false_eq_true, ↓reduceIte, hasCredentials_layout u ok]
+    have hport : (layout (ofUrl u)).port = u.port := by cases hp : u.port <;> simp [layout, ofUrl, hp]
+    rw [hport]
+    by_cases h2 : ((u.includesCredentials || u.port.isSome) && s == Spec.bFile) = true
+    · simp only [h2, ↓reduceIte]; split <;> rfl
+    · simp only [h2, Bool.false_eq_true, ↓reduceIte]
+      -- the third refusal: a file URL with an empty host
+      have h3eq : ((u.scheme == Spec.bFile) && ((layout (ofUrl u)).hs == (layout (ofUrl u)).he)) =
+          (u.scheme == Spec.bFile && u.host == some .empty) := by
+        by_cases hf : (u.scheme == Spec.bFile) = true
+        · simp only [hf, Bool.true_and]
+          have := cannot_iff u ok
+          simp only [cannotHaveCredentialsOrPort, hf, Bool.true_or, Spec.Url.cannotHaveUsernamePasswordPort] at this
+          -- compute hs == he directly
+          have hsome := hfile (by simpa using hf)
+          cases hh : u.host with
+          | none => simp [hh] at hsome
+          | some h =>
+            by_cases he : h = .empty
+            · subst he
+              obtain ⟨hu, hp⟩ := ok.emptyHost hh
+              simp [layout, ofUrl, hh, hu, hp, atS, passS, Spec.Host.serialize]
+            · have hne := ok.nonEmpty h hh he
+              have hl : 0 < h.serialize.length := List.length_pos_iff.mpr hne
+              have h2' : (some h == some Spec.Host.empty) = false := by simpa using he
+              have hx : ((layout (ofUrl u)).hs == (layout (ofUrl u)).he) = false := by
+                simp [layout, ofUrl, hh]; omega
+              rw [hx, h2']
+        · simp [hf]
+      rw [h3eq]
+      by_cases h3 : (u.scheme == Spec.bFile && u.host == some .empty) = true
+      · simp only [h3, ↓reduceIte]; split <;> rfl
+      · simp only [h3, Bool.false_eq_true, ↓reduceIte]
+        have hss : setScheme (layout (ofUrl u)) s = layout (ofUrl { u with scheme := s }) := by
+          rw [setScheme_layout (ofUrl u) s (by simp [ofUrl])]
+          simp [ofUrl, Spec.Url.pathSerialized]
+        rw [hss]
+        have hport2 : (layout (ofUrl { u with scheme := s })).port = u.port := by cases hp : u.port <;> simp [layout, ofUrl, hp]
+        rw [hport2]
+        by_cases h4 : (u.port.isSome && u.port == Spec.defaultPort s) = true
+        · simp only [h4, ↓reduceIte]
+          have hdd : (ofUrl { u with scheme := s }).dashdot = false := by
+            have hps : u.port.isSome = true := by
+              simp only [Bool.and_eq_true] at h4; exact h4.1
+            cases hh : u.host with
+            | none => obtain ⟨_, _, hpn⟩ := ok.hostless hh; simp [hpn] at hps
+            | some h => simp [ofUrl, hh]
+          rw [clearPort_layout _ hdd]
+          have : layout { ofUrl { u with scheme := s } with port := none } = layout (ofUrl { u with scheme := s, port := none }) := by
+            simp [ofUrl, Spec.Url.pathSerialized]
+          rw [this]
+          split <;> rfl
+        · simp only [h4, Bool.false_eq_true, ↓reduceIte]
+          split <;> rfl
+
 /-- the record invariants of C19 provide `CredOk` -/
 theorem credOk_of_recInv (u : Spec.Url) (h : Spec.RecInv u = true) : CredOk u := by
   simp only [Spec.RecInv, Bool.and_eq_true, Bool.or_eq_true, Bool.not_eq_true'] at h
